@@ -118,6 +118,8 @@ pub struct WorldSpec {
     pub strategy: StrategySpec,
     /// None = arbitrary per datagram, Some(salt) = stable flow hash
     pub flow_hash: Option<u64>,
+    #[serde(default)]
+    pub round_robin: bool,
     pub latency_us: u64,
     pub latency_jitter_us: u64,
     pub rcv_cap: usize,
@@ -138,6 +140,7 @@ impl WorldSpec {
             cost_scale: 1000,
             strategy: StrategySpec::Uniform,
             flow_hash: Some(0),
+            round_robin: false,
             latency_us: 50,
             latency_jitter_us: 20,
             rcv_cap: 512,
@@ -162,9 +165,13 @@ impl WorldSpec {
                 StrategySpec::Sticky(q) => dsim::Strategy::Sticky(q),
                 StrategySpec::StarveOne(k) => dsim::Strategy::StarveOne(k),
             },
-            distribution: match self.flow_hash {
-                Some(s) => dsim::Distribution::FlowHash(s),
-                None => dsim::Distribution::Arbitrary,
+            distribution: if self.round_robin {
+                dsim::Distribution::RoundRobin
+            } else {
+                match self.flow_hash {
+                    Some(s) => dsim::Distribution::FlowHash(s),
+                    None => dsim::Distribution::Arbitrary,
+                }
             },
             latency_us: self.latency_us,
             latency_jitter_us: self.latency_jitter_us,
@@ -365,6 +372,9 @@ pub enum Action {
     Send { sock: u32, req: ReqSpec },
     Health { id: u32 },
     Signal { sig: i32 },
+    /// deliver the signal when the scheduler has taken this many steps (a crash point of a baseline)
+    SignalAtStep { step: u64, sig: i32 },
+    CrashAtStep { step: u64 },
     WallStepMs(i64),
     WallSet { secs: u64, nanos: u32 },
     WallFreeze { secs: u64, nanos: u32 },
